@@ -86,12 +86,20 @@ func TestVerifC15Chains(t *testing.T) {
 		if rapid.IntRange(0, 24).Draw(t, "manyStacks") == 0 {
 			// one counter incremented from more than a thousand different call stacks (a long-running server with
 			// many code paths): three-step chains enumerated from a drawn starting point, all different
-			depth = rapid.SampledFrom([]int{3, 8, 16}).Draw(t, "manyDepth")
+			// (with the larger depths the stacks are shallower than the depth, and of different lengths)
+			depth = rapid.SampledFrom([]int{3, 8, 16, 40, 64}).Draw(t, "manyDepth")
 			sc = &StackCounter{name: prefix, depth: depth, file: &file{}}
 			chains = nil
 			n, from := rapid.IntRange(1030, 1500).Draw(t, "nstacks"), rapid.IntRange(0, 20000).Draw(t, "firstStack")
+			if rapid.Bool().Draw(t, "fewerStacks") {
+				n = rapid.IntRange(60, 300).Draw(t, "nstacksFew")
+			}
+			again := rapid.Bool().Draw(t, "everyTenthAgain")
 			for i := from; i < from+n; i++ {
 				chains = append(chains, []int{i % disp.NumSteps, i / disp.NumSteps % disp.NumSteps, i / disp.NumSteps / disp.NumSteps % disp.NumSteps})
+				if again && i%10 == 9 {
+					chains = append(chains, chains[len(chains)-1-(i-from)%7]) // a stack seen before, in between
+				}
 			}
 			vstats.Label("manyStacks")
 		}
